@@ -90,7 +90,11 @@ def filter_line(line, filter):
     if filter == None:
         return False
 
-    p = line.split(",")
+    # what load_policy_line ignores is not a rule and needs no filtering
+    if line == "" or line[:1] == "#":
+        return False
+
+    p = split_line(line)
     if len(p) == 0:
         return True
     filter_slice = []
@@ -105,12 +109,34 @@ def filter_line(line, filter):
     return filter_words(p, filter_slice)
 
 
+def split_line(line):
+    """splits a policy line into the fields load_policy_line stores for it:
+    at the commas that are outside brackets, with surrounding blanks removed."""
+    stack = []
+    tokens = []
+    for c in line:
+        if c == "[" or c == "(":
+            stack.append(c)
+            tokens[-1] += c
+        elif c == "]" or c == ")":
+            stack.pop()
+            tokens[-1] += c
+        elif c == "," and len(stack) == 0:
+            tokens.append("")
+        else:
+            if len(tokens) == 0:
+                tokens.append(c)
+            else:
+                tokens[-1] += c
+
+    return [x.strip() for x in tokens]
+
+
 def filter_words(line, filter):
-    if len(line) < len(filter) + 1:
-        return True
     skip_line = False
     for i, v in enumerate(filter):
-        if v and v.strip() and (v.strip() != line[i + 1].strip()):
+        # a non-blank filter value without a field to compare with does not match either
+        if v and v.strip() and (i + 1 >= len(line) or v.strip() != line[i + 1].strip()):
             skip_line = True
             break
 
